@@ -55,6 +55,13 @@ def Kind.inPlace : Kind → Bool
   | .genAlter | .nodeAlter | .altAlter => true
   | _ => false
 
+/-- a nil slice / nil map comes back as a new empty container (`make(gen.Array, len(tv))`,
+`gen.Object{}`, `make([]any, len(tv))`, `map[string]any{}`); the other conversions hand nil on
+(`var dup []any; if n != nil {…}; return dup`, the cast of a nil slice, an empty range loop) -/
+def Kind.fillsNil : Kind → Bool
+  | .generify | .decompose => true
+  | _ => false
+
 /-- options handed to the recursive call on a slice element -/
 def Kind.arrOpt (k : Kind) (opt : Opt) : Opt :=
   match k with
@@ -128,12 +135,9 @@ def foreign (k : Kind) (H : Heap) (r : Ref) : Option (Heap × Ref) :=
 
 /-- nil slice (`isArr`) or nil map of the form the function converts -/
 def nilContainer (k : Kind) (H : Heap) (isArr : Bool) : Heap × Ref :=
-  match k with
-  | .generify | .decompose =>
-    -- `make(gen.Array, 0)` / `gen.Object{}` / `make([]any, 0)` / `map[string]any{}`: a new empty container
+  if k.fillsNil then
     if isArr then (H ++ [.arr []], .arr k.dst H.length) else (H ++ [.obj []], .obj k.dst H.length)
-  | _ =>
-    -- `var dup []any; if n != nil {…}; return dup`, the cast of a nil slice, an empty range loop
+  else
     (H, if isArr then .nilArr k.dst else .nilObj k.dst)
 
 /-- `condMapSet` of alt/decompose.go and the identical switch in `alter` -/
